@@ -49,18 +49,19 @@ def expect_equiv(rep, rule, inst, key, got, ref, body, what, leaf_eq=D.default_l
 
 # ------------------------------------------------------------------ C06
 
-def check_C06(ctx, rep):
-    f = ctx.facts("A")
+def nan_screen(rep, f, rule, only_eq=False):
+    """with any one word NaN, eq is false / partial_cmp is None on every outcome class"""
     a, b = P(0), P(1)
-    valid = lambda x: call("TwoFloat::is_valid", x)
     EQ = "<TwoFloat as core::cmp::PartialEq<TwoFloat>>::eq"
     PC = "<TwoFloat as core::cmp::PartialOrd<TwoFloat>>::partial_cmp"
     words = [HI(a), LO(a), HI(b), LO(b)]
-    # R12 NaN screen: with any one word NaN the result is false / None on every path
     for ident, bad_is, kind in ((EQ, "false", "bool"), (PC, "None", "ord")):
-        t, body = get_tree(rep, f, "R12", ident)
+        if only_eq and kind != "bool":
+            continue
+        t, body = get_tree(rep, f, rule, ident)
         if t is None:
             continue
+        t = D.map_terms(t, _N.norm)
         t2 = D.expand_bool_leaves(t) if kind == "bool" else D.expand_ordering_leaves(t)
         for w, wn in zip(words, ("self.hi", "self.lo", "other.hi", "other.lo")):
             env_assume = ("bool", isnan(w))
@@ -69,9 +70,19 @@ def check_C06(ctx, rep):
                 return True
             outs = D.all_outcomes(t2, assume=assume)
             wrong = [(e, l) for e, l in outs if not ((kind == "bool" and l[0] == "leaf" and l[1] is FALSE) or (kind == "ord" and l == ("ord", "un")))]
-            rep.check(not wrong, "R12", "%s with %s NaN" % (ident.split("::")[-1], wn), "nan-screen:%s:%s" % (ident.split("::")[-1], wn),
+            rep.check(not wrong, rule, "%s with %s NaN" % (ident.split("::")[-1], wn), "nan-screen:%s:%s" % (ident.split("::")[-1], wn),
                       "%s does not return %s on every path when %s is NaN: e.g. %s" % (ident, bad_is, wn, D.Mismatch(wrong[0][0], wrong[0][1], ("expected", bad_is)).describe() if wrong else ""),
                       where=H.where(body), detail="%d outcome classes, all %s" % (len(outs), bad_is))
+
+
+def check_C06(ctx, rep):
+    f = ctx.facts("A")
+    a, b = P(0), P(1)
+    valid = lambda x: call("TwoFloat::is_valid", x)
+    EQ = "<TwoFloat as core::cmp::PartialEq<TwoFloat>>::eq"
+    PC = "<TwoFloat as core::cmp::PartialOrd<TwoFloat>>::partial_cmp"
+    words = [HI(a), LO(a), HI(b), LO(b)]
+    nan_screen(rep, f, "R12")
     # R12b reference semantics
     t, body = get_tree(rep, f, "R12b", EQ)
     if t is not None:
@@ -145,6 +156,8 @@ def check_C06(ctx, rep):
                 return tag(v) == "agg" and tag(v[2][0]) == "const" and D.f64v(v[2][0]) != D.f64v(v[2][0])
             return l1 == l2
         expect_equiv(rep, "R12d", "signum", "sign:signum", t, ref, body, "valid: +-1 by the sign bit of hi; invalid: NaN", leaf_eq=leq)
+    from .rules_c10 import check_delegation_subset
+    check_delegation_subset(rep, f, {"min", "max", "abs", "signum", "is_sign_positive", "is_sign_negative", "is_positive", "is_negative"})
     rep.floor("R12", len([o for o in rep.obl if o["rule"] == "R12"]), 8, "NaN screen instances")
     rep.floor("R12b-d", len([o for o in rep.obl if o["rule"] in ("R12b", "R12c", "R12d")]), 13, "comparison / sign decision tables")
 
@@ -274,4 +287,6 @@ def check_C08(ctx, rep):
                         used.add(n[1])
         rep.check(used == allowed, "R20", "direction of " + name, "direction:" + name, "%s applies %s to a word (expected only %s)" % (name, sorted(used), sorted(allowed)),
                   where=H.where(b), detail=sorted(used))
+    from .rules_c10 import check_delegation_subset
+    check_delegation_subset(rep, f, {"floor", "ceil", "round", "trunc", "fract"})
     rep.floor("R19", len([o for o in rep.obl if o["rule"] == "R19"]), 5, "rounding functions")
